@@ -21,11 +21,19 @@ class FakeWriter:
     def __init__(self):
         self.data = bytearray()
         self.closed = False
+        self.block_next = None
+        self.waiting = {}
 
     def write(self, b):
         self.data += b
 
     async def drain(self):
+        # the behaviour being replayed decides whether this drain() has to wait for the transport (large request)
+        if self.block_next is not None:
+            name, self.block_next = self.block_next, None
+            fut = asyncio.get_running_loop().create_future()
+            self.waiting[name] = fut
+            await fut
         return None
 
     def is_closing(self):
@@ -243,8 +251,25 @@ class IpcDriver:
                         break
                 else:
                     self.drift.append(f"no held coroutine for {name}")
-                self.io.step()
+                if st.get("blk"):
+                    self.writer.block_next = name
+                    for _ in range(4):          # task creation and the first step of the coroutine are separate iterations
+                        self.io.step()
+                        if self.writer.block_next is None:
+                            break
+                    self.writer.block_next = None
+                else:
+                    self.io.step()
                 self.settle_threads()
+            elif a == "ldrained":
+                fut = self.writer.waiting.pop(f"c{st['c']}", None)
+                if fut is None:
+                    self.drift.append(f"no waiting drain for c{st['c']}")
+                else:
+                    if not fut.done():
+                        fut.set_result(None)
+                    self.io.step()
+                    self.settle_threads()
             elif a == "ldeliver" and False:
                 pass
             elif a == "ldeliver":
